@@ -20,6 +20,7 @@ import (
 	"bytes"
 	"encoding/binary"
 	"errors"
+	"unicode"
 	"unicode/utf16"
 
 	"github.com/sassoftware/relic/v8/lib/redblack"
@@ -229,5 +230,19 @@ func lessDirEnt(i, j interface{}) bool {
 	if e.NameLength != f.NameLength {
 		return e.NameLength < f.NameLength
 	}
-	return e.name < f.name
+	// equal lengths: compare the upper-cased UTF-16 code units ([MS-CFB] 2.6.4)
+	for k := range e.NameRunes {
+		a, b := upperRune16(e.NameRunes[k]), upperRune16(f.NameRunes[k])
+		if a != b {
+			return a < b
+		}
+	}
+	return false
+}
+
+func upperRune16(c uint16) uint16 {
+	if u := unicode.ToUpper(rune(c)); u <= 0xffff {
+		return uint16(u)
+	}
+	return c
 }
